@@ -31,6 +31,7 @@ CLAUSE_PROP = {
     "MalformedFex": "C01",
     "BackendsAgreeAtRunTime": "C01", "JacobiansAgreeAtRunTime": "C02",
     "JacTerms": "C02", "Inv:JacIsDerivative": "C02", "JacobianReadsTheSameAbundancesAsTheRhs": "C02", "OmittedIsZero": "C02", "WrapperOnThermalCellsOnly": "C02", "MalformedJac": "C02",
+    "MacroExpressionsParenthesised": "C03", "BatchStrideIsSystemSize": "C03",
     "TermsOnlyInRange": "C03", "CellsInRange": "C03", "NoCellAssignedTwice": "C03", "MacroNSPECIES": "C03", "MacroNEQUATIONS": "C03",
     "MacroNREACTIONS": "C03", "MacroThermal": "C03", "SubscriptsInBounds": "C03", "CsrComplete": "C03", "CsrWellFormed": "C03",
     "CsrDataWithinNNZ": "C03", "CsrCellsAreTheCells": "C03", "PatternMarksStoredEntries": "C03", "BackendsAgree": "C03",
@@ -191,6 +192,7 @@ def observe(ctx: Ctx, net, desc: dict, case_id: int, with_pattern: bool):
         except creader.ReadError as e:
             o["jac_error"] = str(e)
         o["physics"] = (d / "src" / f"naunet_physics.{ext}").read_text()
+        o["strides"] = {"fex": creader.batch_strides(fexfile.read_text()), "jac": creader.batch_strides(jacfile.read_text())} if tag == "cusparse" else {}
         ratefile = d / "src" / (f"naunet_rates.{ext}" if solver == "cvode" else "naunet_ode.cpp")
         o["k_assigned"] = [int(x) for x in re.findall(r"(?<![\w.])k\s*\[\s*(\d+)\s*\]\s*=[^=]", creader.strip_comments(ratefile.read_text()))]
         if with_pattern and tag == "sparse":
@@ -290,6 +292,10 @@ def make_trace(tid: int, desc: dict, tag: str, o: dict, extra_species: list[str]
         "max_kh": ms.get("kh", -1), "max_kc": ms.get("kc", -1), "max_k_assigned": max(o.get("k_assigned") or [-1]),
         "has_csr": tag in ("sparse", "cusparse"), "has_pattern": False,
         # through which array the abundances are read (the batched GPU kernels read the cell's own block `y_cur`, not the base `y`)
+        # macros whose text is an unparenthesised expression; offsets of the batched kernels (one system = NEQUATIONS abundances, NNZ stored entries)
+        "unparenthesised": len(macros.get("__unparenthesised__", [])),
+        "strides_ok": all(v == "NEQUATIONS" for v in o.get("strides", {}).get("fex", {}).values())
+        and all(v == ("NNZ" if k == "jistart" else "NEQUATIONS") for k, v in o.get("strides", {}).get("jac", {}).items()),
         "yarr_fex": sorted(k for k in fex["maxsub"] if k in ("y", "y_cur")), "yarr_jac": sorted(k for k in jac["maxsub"] if k in ("y", "y_cur")),
     }
     if fin["has_csr"]:
@@ -573,6 +579,9 @@ def main(ctx: Ctx) -> int:
         {"reactions": [(["Si", "O"], ["SiO"]), (["S+", "e-"], ["S"]), (["SiO", "S+"], ["SO+", "Si"]), (["Si+", "S"], ["Si", "S+"])], "required": [],
          "origin": "random"},
         {"reactions": [(["S+", "SiH"], ["HS+", "Si"]), (["Si+", "e-"], ["Si"]), (["S", "Si+"], ["S+", "Si"])], "required": ["SO"], "origin": "random"},
+        # several species that take part in nothing (consecutive empty Jacobian rows), with the pattern file
+        {"reactions": [(["C", "O"], ["CO"]), (["CO", "He+"], ["C+", "O", "He"])], "required": ["N", "N2", "D"], "force_pattern": True, "origin": "random"},
+        {"reactions": [(["H", "H"], ["H2"])], "required": ["He", "He+", "He++", "D"], "force_pattern": True, "origin": "random"},
         # a modifier that names a species the network does not hold, listed AFTER one it does hold: refused, or ignored -- never applied to another
         {"reactions": [(["H", "H"], ["H2"]), (["H2", "He+"], ["H", "H+", "He"]), (["H+", "e-"], ["H"])], "required": [],
          "ode_modifier": {"H2": {"factors": ["-mf0"], "reactants": [["H"]]}, "CO": {"factors": ["0.5 * mf1", "-kads"], "reactants": [["H"], ["H", "He"]]}},
@@ -653,7 +662,7 @@ def main(ctx: Ctx) -> int:
                 net.add_reaction(Reaction(list(r_), list(p_), alpha=1.0e-10 * len(desc["reactions"]), reaction_type=ReactionType.GAS_TWOBODY))
             else:
                 net = prebuilt.get(ci) or build_network(desc)
-            obs = observe(ctx, net, desc, ci, with_pattern=(ci % 3 == 0))
+            obs = observe(ctx, net, desc, ci, with_pattern=(ci % 3 == 0 or bool(desc.get("force_pattern"))))
         except Exception as e:   # noqa
             if desc.get("absent_modifier_species"):
                 cov["refused_modifier_for_absent_species"] = cov.get("refused_modifier_for_absent_species", 0) + 1
@@ -732,7 +741,7 @@ def main(ctx: Ctx) -> int:
         at = max(1, min(rj["at"], len(tr["ev"])))
         evk = tr["ev"][at - 1]["k"]
         prop = CLAUSE_PROP.get(clause, "C01")
-        if clause == "TermsOnlyInRange" and pid in ("C01", "C02", "C03"):
+        if clause in ("TermsOnlyInRange", "BatchStrideIsSystemSize") and pid in ("C01", "C02", "C03"):
             # a term on an equation / cell outside the network's own species is wrong for the right-hand side (C01), for the Jacobian
             # (C02) and for the declared sizes (C03) alike: it is reported by whichever of them is being checked
             prop = pid
